@@ -11,10 +11,13 @@ For every corpus document D (as an id list) planted in any context:
  * the retain pass yields one flag per candidate (`retain_length`), keeps a lone candidate
    (`retain_single`), and keeps every candidate that shares no line with any other candidate
    (`retain_unconflicted`).
-That the join/run/fuse stages then propose exactly the planted range, and that
-no other document dominates it in the overlap filter, is NOT proved (partial):
-it is established on the implementation by the C01 oracle over every corpus
-document, thresholds 0.7–1.0 and multi-copy plantings (DESIGN §6 C01).
+That the join/run/fuse stages then propose exactly the planted range is
+`exact_range_proposed` (LC/Props/C01Range.lean).  `retain_not_dominated` states exactly when
+the overlap filter keeps a candidate (the `NoDominator` condition of DESIGN §6 C01); that the
+condition holds for a planted copy — no other corpus document's candidate contains its lines
+with a larger tokens × confidence — depends on the corpus and is established on the
+implementation by the C01 oracle over every corpus document, thresholds 0.7–1.0 and multi-copy
+plantings.
 Property theorems only; helper lemmas live in LC/Proofs/Exact.lean.
 -/
 import LC.Model.V2Match
@@ -54,6 +57,25 @@ theorem retain_length {C : Type} (N : NumEnv C) (cands : List (Match C)) :
 /-- a lone candidate is retained -/
 theorem retain_single {C : Type} (N : NumEnv C) (c : Match C) : retainPass N [c] = [true] :=
   retain_single' N c
+
+/-- tokens × confidence of a candidate, as the overlap filter weighs it -/
+def heavier {C : Type} (N : NumEnv C) (a b : Match C) : Bool :=
+  N.wgt (a.endTok - a.startTok) a.conf (b.endTok - b.startTok) b.conf
+
+/-- `NoDominator`, exactly: the overlap filter keeps candidate `c` (at position `i` of the sorted
+list) if no EARLIER candidate both is contained in its lines and weighs more, or overlaps it
+without being contained (other than touching: c starts on the line the other ends on), and no
+LATER candidate contains its lines and weighs more. (Earlier/later candidates that were themselves
+dropped cannot hurt either; the hypotheses do not need to know.) -/
+theorem retain_not_dominated {C : Type} (N : NumEnv C) (cands : List (Match C)) (i : Nat) (c : Match C)
+    (hi : cands[i]? = some c)
+    (hearlier : ∀ j o, cands[j]? = some o → j < i →
+      (contains c o = true → heavier N o c = false) ∧
+      (contains c o = false → overlaps c o = true → c.startLine = o.endLine))
+    (hlater : ∀ j x, cands[j]? = some x → i < j → contains x c = true → heavier N x c = false) :
+    (retainPass N cands)[i]? = some true :=
+  retain_not_dominated' N cands i c hi (fun j o ho hj => hearlier j o ho hj)
+    (fun j x hx hj hc => hlater j x hx hj hc)
 
 /-- the overlap filter keeps a candidate that shares no line with any other candidate (neither
 contains nor overlaps one, nor is contained or overlapped by one), wherever it stands in the
